@@ -324,6 +324,20 @@ func (x *g) genMethod(sv *spec.Service, j int, used map[string]bool) {
 			e.Type = &spec.Type{Kind: spec.Array, Elem: &spec.Attr{Type: &spec.Type{Kind: spec.String}}}
 			e.Timeout, e.Temporary, e.Fault = false, false, false
 			x.s.AddFeature("errors-inline-types-pair")
+			switch x.r.Intn(3) {
+			case 0:
+				// two inline types of the SAME JSON type that differ below the top level
+				m.Errors[0].Type = &spec.Type{Kind: spec.Array, Elem: &spec.Attr{Type: &spec.Type{Kind: spec.Int}}}
+				x.s.AddFeature("errors-inline-types-pair-same-json-type")
+			case 1:
+				m.Errors[0].Type = &spec.Type{Kind: spec.Map, Key: &spec.Attr{Type: &spec.Type{Kind: spec.String}}, Elem: &spec.Attr{Type: &spec.Type{Kind: spec.Int}}}
+				e.Type = &spec.Type{Kind: spec.Map, Key: &spec.Attr{Type: &spec.Type{Kind: spec.String}}, Elem: &spec.Attr{Type: &spec.Type{Kind: spec.String}}}
+				x.s.AddFeature("errors-inline-types-pair-same-json-type")
+			}
+			if x.inlinePair == nil {
+				x.inlinePair = map[*spec.Method]bool{}
+			}
+			x.inlinePair[m] = true
 		}
 		// one error name means one Go type per service: a name another method of this service already uses keeps
 		// its name only when both use the default error type (then the two methods may still map it to different
@@ -754,7 +768,7 @@ func (x *g) genHTTP(sv *spec.Service, m *spec.Method, idx int) {
 		m.HTTP.Errors = append(m.HTTP.Errors, he)
 	}
 	// several errors on one status (goa-error header disambiguates)
-	inlinePair := len(m.Errors) >= 2 && m.Errors[0].Type != nil && m.Errors[1].Type != nil && m.Errors[0].Type.Kind == spec.String && m.Errors[1].Type.Kind == spec.Array
+	inlinePair := x.inlinePair[m]
 	if len(m.HTTP.Errors) >= 2 && (x.chance(1, 2) || inlinePair) {
 		m.HTTP.Errors[1].Status = m.HTTP.Errors[0].Status
 		x.s.AddFeature("errors-share-status")
